@@ -214,6 +214,111 @@ theorem C11_signal_names_unit (k : Kind) (hk : k ≠ .sim) (da : Nat) (f : Frame
     by_cases g0 : daGuard da f = true <;> by_cases g3 : pgn f.id = pgnAddressClaimed <;>
       by_cases g4 : pgn f.id = encoderPgn <;> by_cases g5 : fromUnit da f = true <;> simp_all
 
+/-! ### the translator tie: the drivers' `parse` functions as regenerated tables -/
+
+private theorem vcu_arm (da : Nat) (f : Frame) (h : touched (vcuRecv da f) = true) : (pgn f.id, true) ∈ Kind.vcu.arms := by
+  unfold vcuRecv at h
+  by_cases g0 : daGuard da f = true
+  · simp only [g0, Bool.not_true, Bool.false_eq_true, if_false] at h
+    by_cases g1 : pgn f.id = pgnProprietarilyConfigurableMessage1 <;> by_cases g2 : pgn f.id = pgnSoftwareIdentification <;>
+      by_cases g3 : pgn f.id = pgnAddressClaimed <;> by_cases g4 : pgn f.id = vcuStatusPgn <;>
+      by_cases g5 : fromUnit da f = true <;> simp_all [touched, RecvOut.alive, fromUnit, Kind.arms]
+  · simp [g0, touched, RecvOut.alive] at h
+
+private theorem ecu_arm (da : Nat) (f : Frame) (h : touched (ecuRecv da f) = true) : (pgn f.id, true) ∈ Kind.ecu.arms := by
+  unfold ecuRecv at h
+  by_cases g0 : daGuard da f = true
+  · simp only [g0, Bool.not_true, Bool.false_eq_true, if_false] at h
+    by_cases g2 : pgn f.id = pgnSoftwareIdentification <;> by_cases g3 : pgn f.id = pgnAddressClaimed <;>
+      by_cases g5 : fromUnit da f = true <;> simp_all [touched, RecvOut.alive, fromUnit, Kind.arms]
+  · simp [g0, touched, RecvOut.alive] at h
+
+private theorem encoder_arm (da : Nat) (f : Frame) (h : touched (encoderRecv da f) = true) : (pgn f.id, true) ∈ Kind.encoder.arms := by
+  unfold encoderRecv at h
+  by_cases g0 : daGuard da f = true
+  · simp only [g0, Bool.not_true, Bool.false_eq_true, if_false] at h
+    by_cases g2 : pgn f.id = encoderPgn <;> by_cases g3 : pgn f.id = pgnAddressClaimed <;>
+      by_cases g5 : fromUnit da f = true <;> simp_all [touched, RecvOut.alive, fromUnit, Kind.arms]
+  · simp [g0, touched, RecvOut.alive] at h
+
+private theorem inclino_arm (da : Nat) (f : Frame) (h : touched (inclinoRecv da f) = true) : (pgn f.id, true) ∈ Kind.inclino.arms := by
+  unfold inclinoRecv at h
+  by_cases g0 : daGuard da f = true
+  · simp only [g0, Bool.not_true, Bool.false_eq_true, if_false] at h
+    by_cases g2 : pgn f.id = inclinometerPgn <;> by_cases g3 : pgn f.id = pgnAddressClaimed <;>
+      by_cases g5 : fromUnit da f = true <;> simp_all [touched, RecvOut.alive, fromUnit, Kind.arms]
+  · simp [g0, touched, RecvOut.alive] at h
+
+private theorem hcu_arm (da : Nat) (f : Frame) (h : touched (hcuRecv da f) = true) : (pgn f.id, true) ∈ Kind.hcu.arms := by
+  unfold hcuRecv at h
+  cases hp : hcuParse da f with
+  | none => simp [hp, touched, RecvOut.alive] at h
+  | some m =>
+    have hg : daGuard da f = true := by
+      by_cases g0 : daGuard da f = true
+      · exact g0
+      · simp [hcuParse, g0] at hp
+    have hp0 := hp
+    unfold hcuParse at hp
+    simp only [hg, Bool.not_true, Bool.false_eq_true, if_false] at hp
+    cases m with
+    | actuator => simp [hp0, touched, RecvOut.alive] at h
+    | motionConfig l r => simp [hp0, touched, RecvOut.alive] at h
+    | vecraftConfig => simp [hp0, touched, RecvOut.alive] at h
+    | softId =>
+      repeat' split at hp
+      all_goals simp_all [Kind.arms]
+    | addressClaim =>
+      repeat' split at hp
+      all_goals simp_all [Kind.arms]
+    | status st lk =>
+      repeat' split at hp
+      all_goals simp_all [Kind.arms]
+
+private theorem ems_arm (da : Nat) (f : Frame) (h : touched (emsRecv da f) = true) : (pgn f.id, true) ∈ Kind.ecm.arms := by
+  unfold emsRecv at h
+  by_cases g0 : pgn f.id = pgnTorqueSpeedControl1
+  · simp [g0, touched, RecvOut.alive] at h
+  · simp only [g0, if_false] at h
+    by_cases g1 : pgn f.id = pgnElectronicEngineController1
+    · simp [Kind.arms, g1]
+    · simp only [g1, if_false] at h
+      by_cases g2 : pgn f.id ∈ emsOtherPgns
+      · simp only [Kind.arms, List.mem_cons, List.mem_map]
+        exact Or.inr (Or.inr ⟨_, g2, rfl⟩)
+      · simp [g2, touched, RecvOut.alive] at h
+
+/-- whatever a driver of the model credits to its unit comes through an arm of its table that refuses foreign senders -/
+theorem arms_sound (k : Kind) (hk : k ≠ .sim) (da : Nat) (f : Frame) (r : RecvOut)
+    (h : tryRecv k da f = .ok r) (ht : touched r = true) : (pgn f.id, true) ∈ k.arms := by
+  cases k with
+  | sim => exact absurd rfl hk
+  | vcu => simp only [tryRecv, Outcome.ok.injEq] at h; subst h; exact vcu_arm da f ht
+  | hcu => simp only [tryRecv, Outcome.ok.injEq] at h; subst h; exact hcu_arm da f ht
+  | ecu => simp only [tryRecv, Outcome.ok.injEq] at h; subst h; exact ecu_arm da f ht
+  | encoder => simp only [tryRecv, Outcome.ok.injEq] at h; subst h; exact encoder_arm da f ht
+  | inclino => simp only [tryRecv, Outcome.ok.injEq] at h; subst h; exact inclino_arm da f ht
+  | d7e => simp only [tryRecv, Outcome.ok.injEq] at h; subst h; exact ems_arm da f ht
+  | ecm => simp only [tryRecv, Outcome.ok.injEq] at h; subst h; exact ems_arm da f ht
+
+def sameArms (a b : List (Nat × Bool)) : Bool := a.all (b.contains ·) && b.all (a.contains ·)
+
+/-- THE TIE: the tables the translator reads off the drivers' `parse` functions in the current source (which parameter
+groups have an arm, which arms return `None` for a foreign sender, whether the function starts with the destination
+guard) are exactly the tables this model was written against -/
+theorem C11_parse_tables_as_modelled :
+    ∀ k ∈ Kind.all, sameArms (parseTable k) k.arms = true ∧ parseDaGuard k = k.daGuarded := by decide
+
+/-- corollary on the regenerated tables alone: a frame is credited to a unit only through an arm of the CURRENT source's
+`parse` that refuses foreign senders -/
+theorem C11_credited_only_through_guarded_arms (k : Kind) (hk : k ≠ .sim) (da : Nat) (f : Frame) (r : RecvOut)
+    (h : tryRecv k da f = .ok r) (ht : touched r = true) : (parseTable k).contains (pgn f.id, true) = true := by
+  have hm := arms_sound k hk da f r h ht
+  have hall : k ∈ Kind.all := by cases k <;> decide
+  have hs := (C11_parse_tables_as_modelled k hall).1
+  simp only [sameArms, Bool.and_eq_true, List.all_eq_true] at hs
+  exact hs.2 _ hm
+
 /-- the simulator driver, by design, credits frames of OTHER nodes (the daemon's own HCU commands) to its
 virtual encoders: the full statement of C11 is false for it (recorded finding) -/
 theorem C11_simulator_witness :
